@@ -283,8 +283,14 @@ func execRes(sc *C01Scenario, tr *kit.Trace, res *kit.Result, pid string, oracle
 		defer func() {
 			hookLog = append(hookLog, hookRec{at: w.Now(), zone: honest.Zone.Name, kind: honest.Kind, step: step, tampered: spoiled, op: curOp, cd: q.Msg.CheckingDisabled})
 		}()
+		kindDone := map[string]bool{}
 		for _, t := range sc.Tampers {
 			if curOp < t.FromOp || curOp >= t.ToOp || dns.CanonicalName(t.Zone) != honest.Zone.Name {
+				continue
+			}
+			if kindDone[t.Kind] {
+				// two tamperings of one kind matching the same response are one tampering: applied
+				// twice, sig-labels on the root (0 -> 1 -> 0) would restore the genuine message
 				continue
 			}
 			if t.Step != "any" && t.Step != step {
@@ -300,6 +306,7 @@ func execRes(sc *C01Scenario, tr *kit.Trace, res *kit.Result, pid string, oracle
 			}
 			msg = &authsim.Answer{Zone: honest.Zone, Msg: m, Kind: honest.Kind, Child: honest.Child}
 			applied = true
+			kindDone[t.Kind] = true
 			if t.Kind != "denial-dup-reorder" && authsim.Invalidating(t.Kind) {
 				spoiled = true
 			}
